@@ -43,6 +43,13 @@ inductive Scheme | x509 | signingAuthority
 inductive TsOption | unset | always | afterCertExpiry
   deriving DecidableEq, Repr, FromJson, ToJson
 
+/-- how the TYPE prefix of a trust store entry (`<type>:<name>`) is spelled in the policy statement -/
+inductive Spelling
+  | canonical   -- "ca", "signingAuthority", "tsa" exactly
+  | otherCase   -- another letter case ("TSA", "Tsa", "CA", "signingauthority")
+  | padded      -- white space around the type (" tsa", "tsa ")
+  deriving DecidableEq, Repr, FromJson, ToJson
+
 /-- the RFC 3161 countersignature found in the envelope's unsigned attributes -/
 structure Token where
   parses : Bool            -- `tspclient.ParseSignedToken` and `Info()` succeed
@@ -72,10 +79,15 @@ structure Input where
   tsaRevocationError : Bool       -- the timestamping revocation validator returns an error
   tsaRevocation : List C05.R      -- its per-certificate results for the TSA chain, leaf first
   tsaChainLen : Nat               -- number of certificates in the verified TSA chain (normally = tsaRevocation.length)
+  -- `tsaListed` is meant semantically: the statement has an entry that denotes a tsa store, however its type is spelled
+  tsaTypeSpelling : Spelling      -- spelling of the type of the tsa entries (canonical when there is none)
+  signingTypeSpelling : Spelling  -- spelling of the type of the ca / signingAuthority entry
   deriving Repr, FromJson, ToJson
 
 /-- what the property observes: the two ValidationResults of `verifier.Verify` -/
 structure Obs where
+  refused : Bool                  -- the verifier could not be built: policy validation refused the statement
+                                  -- (then no verification is possible and the other fields are false / true / true)
   evaluated : Bool                -- both results are present in the outcome (the scenario makes every earlier
                                   -- validation pass: the chain's root is in the listed ca / signingAuthority store)
   expiryFailed : Bool             -- the `expiry` result carries an error
@@ -202,11 +214,23 @@ def verifyAuthenticTimestamp (i : Input) : Bool :=
   | .x509 => verifyTimestamp i
   | .signingAuthority => saLoop i.signingTime i.chain
 
-def run (i : Input) : Obs :=
-  { evaluated := true, expiryFailed := verifyExpiry i.now i.expiry, authTsFailed := verifyAuthenticTimestamp i,
+/-- what the verifier does with a statement it accepts -/
+def runAccepted (i : Input) : Obs :=
+  { refused := false, evaluated := true, expiryFailed := verifyExpiry i.now i.expiry, authTsFailed := verifyAuthenticTimestamp i,
     -- `ValidateContextOptions{CertChain: tsaCertChain}` in step 5; `verifyRevocation` sets
     -- `AuthenticSigningTime` only under signingAuthority
     tsaRevocationArgsOk := true, signingRevocationArgsOk := true }
+
+/-- policy validation (`validateTrustStore` / `isValidTrustStoreType`, exact comparison with the three type names)
+refuses a statement whose store types are not spelled canonically -/
+def refusedByValidation (i : Input) : Bool :=
+  i.tsaTypeSpelling != .canonical || i.signingTypeSpelling != .canonical
+
+def run (i : Input) : Obs :=
+  if refusedByValidation i then
+    { refused := true, evaluated := false, expiryFailed := false, authTsFailed := false,
+      tsaRevocationArgsOk := true, signingRevocationArgsOk := true }
+  else runAccepted i
 
 /-! ### the property over observables (declarative: no loops, no order of checks) -/
 
@@ -240,7 +264,9 @@ def tokenGood (i : Input) : Bool :=
     i.chain.all (fun w => w.containsRange (k.genTime - accuracyNs k) (k.genTime + accuracyNs k)) &&
     !i.tsaRevocationError && i.tsaRevocation.length == i.tsaChainLen && i.tsaRevocation.all C05.R.good
 
-def clauses (i : Input) (o : Obs) : Clauses :=
+/-- the clauses for a statement the verifier accepted.  `tsaListed` is read semantically, so an implementation that
+accepts another spelling of a store type has to treat the entry as what it serves it as. -/
+def clausesAccepted (i : Input) (o : Obs) : Clauses :=
   let x509 := i.scheme == .x509
   let passed := !o.authTsFailed
   [ ("both_validations_evaluated", o.evaluated),
@@ -256,6 +282,12 @@ def clauses (i : Input) (o : Obs) : Clauses :=
       !(x509 && tsApplies i && passed) || tokenGood i),
     ("x509_with_timestamping_good_countersignature_passes",
       !(x509 && tsApplies i && tokenGood i) || passed) ]
+
+/-- a refused statement means no verification is possible - nothing is claimed about verdicts that do not exist;
+but a canonically spelled statement must not be refused -/
+def clauses (i : Input) (o : Obs) : Clauses :=
+  ("canonical_statement_is_not_refused", !o.refused || refusedByValidation i) ::
+    (clausesAccepted i o).map (fun c => (c.1, o.refused || c.2))
 
 def Holds (i : Input) (o : Obs) : Bool := (clauses i o).holds
 
